@@ -15,7 +15,7 @@ RULE = ("P producer threads x K callFromThread calls each against a reactor thre
         "is readable, so a lost wake-up is a deadlock. non-trivial = distinct schedules in which a producer ran between two lines of "
         "runUntilCurrent's thread-queue block or the reactor ran between two lines of a callFromThread")
 BOUNDS = {"quick": "2 producers x 1 call, 1 producer x 2 calls, 1 producer x 3 calls; <= 2 preemptions each; asyncio reactor: all interleavings of 2 producers x 2 calls with loop steps over a model event loop (ticking and frozen clock)",
-          "thorough": "2x2 with <= 2 and <= 3 preemptions; 3x2 and 2x3 with <= 2; 3x1 with <= 3"}
+          "thorough": "2 producers x 2 calls and 3 x 1 with <= 2 preemptions; 2 x 1 and 1 x 3 with <= 3; asyncio: 3 producers x 2 calls, all interleavings"}
 ASSUMPTIONS = ["one Python source line is atomic (the code relies only on list.append / del slice atomicity under the GIL)",
                "real select/poll/epoll are replaced by the harness's doIteration, which reads readiness of the real waker pipe; what is decided is the Twisted-side queue+waker protocol",
                "states/transitions count scheduler steps executed on the real code"]
@@ -123,7 +123,7 @@ def run_one(ch, nprod, ncalls):
 
 
 CONFIGS_Q = [(2, 1, 2), (1, 2, 2), (1, 3, 2)]
-CONFIGS_T = [(2, 2, 2), (2, 2, 3), (3, 2, 2), (2, 3, 2), (3, 1, 3)]
+CONFIGS_T = [(2, 2, 2), (3, 1, 2), (2, 1, 3), (1, 3, 3)]
 
 
 def shards(tier, seed):
